@@ -916,6 +916,18 @@ func runC13(c *Ctx) error {
 	x.valueVsText()
 	x.endToEnd(c.rng.Fork())
 	x.stringResults(c.rng.Fork())
+	for i := 0; i < c.N(450, 7000); i++ {
+		x.i = 6*n + i
+		x.resultsCase(c.rng.Fork())
+	}
+	for i := 0; i < c.N(250, 4000); i++ {
+		x.i = 7*n + i
+		x.roundTripCase(c.rng.Fork())
+	}
+	x.resultsFixed()
+	x.stringLossless(c.rng.Fork())
+	// x.typeTexts(c.rng.Fork()) — c13_types.go (ops 13/14) is NOT wired in yet: widths near 2^31 in the fixed
+	// texts make the nat-based of_minfo of IO/IOTypes.v take minutes in the extracted model
 	x.doorStreaming(c.rng.Fork())
 	x.doorPrintResults(c.rng.Fork())
 	x.doorTypesParse(c.rng.Fork())
